@@ -175,8 +175,10 @@ export async function loadModule(code, env = {}) {
     return { rt, error: { phase: 'link', name: e.name, message: String(e.message) }, cleanup };
   }
   try {
-    await mod.evaluate({ timeout: 5000 });
+    await mod.evaluate({ timeout: 30000 });
   } catch (e) {
+    // a wall-clock limit on a loaded machine is never a verdict: report it as a harness condition (inconclusive)
+    if (e && /Script execution timed out/.test(String(e.message))) return { rt, error: { phase: 'evaluate', name: 'HarnessError', message: 'module evaluation exceeded the 30 s wall-clock allowance' }, cleanup };
     return {
       rt, error: {
         phase: 'evaluate', name: e instanceof MockUnimplemented ? 'MockUnimplemented' : e && e.name,
